@@ -2,6 +2,10 @@ use quote::{format_ident, quote};
 use syn::{punctuated::Punctuated, Data, DeriveInput, Field, Fields, Meta, Type, Variant};
 
 use super::models::{FieldAttribute, FieldAttributeBuilder, TypeAttributeBuilder};
+#[cfg(feature = "Copy")]
+use crate::common::{
+    bound::Bound, where_predicates_bool::create_where_predicates_from_generic_parameters_check_types,
+};
 use crate::{
     common::where_predicates_bool::WherePredicates, supported_traits::Trait, TraitHandler,
 };
@@ -22,6 +26,10 @@ impl TraitHandler for CloneEnumHandler {
         .build_from_clone_meta(meta)?;
 
         let mut bound: WherePredicates = Punctuated::new();
+
+        // the predicates of the companion `Copy` impl when they differ from those of the `Clone` impl
+        #[cfg(feature = "Copy")]
+        let mut copy_bound: Option<WherePredicates> = None;
 
         let mut clone_token_stream = proc_macro2::TokenStream::new();
         let mut clone_from_token_stream = proc_macro2::TokenStream::new();
@@ -64,6 +72,24 @@ impl TraitHandler for CloneEnumHandler {
 
             #[cfg(not(feature = "Copy"))]
             let contains_copy = false;
+
+            // with a custom clone method the `Clone` impl clones field by field and only asks the fields without a method to
+            // be `Clone`, but the type can only be `Copy` if every field is
+            #[cfg(feature = "Copy")]
+            if has_custom_clone_method && traits.contains(&Trait::Copy) {
+                if let Bound::Auto = type_attribute.bound {
+                    let all_types: Vec<&Type> = variants
+                        .iter()
+                        .flat_map(|(_, variant_fields)| variant_fields.iter().map(|(field, _)| &field.ty))
+                        .collect();
+
+                    copy_bound = Some(create_where_predicates_from_generic_parameters_check_types(
+                        &syn::parse2(quote!(::core::marker::Copy)).unwrap(),
+                        &all_types,
+                        &[],
+                    ));
+                }
+            }
 
             if contains_copy {
                 clone_token_stream.extend(quote!(*self));
@@ -261,10 +287,26 @@ impl TraitHandler for CloneEnumHandler {
 
         #[cfg(feature = "Copy")]
         if traits.contains(&Trait::Copy) {
-            token_stream.extend(quote! {
-                impl #impl_generics ::core::marker::Copy for #ident #ty_generics #where_clause {
+            if let Some(copy_bound) = copy_bound {
+                let mut generics = ast.generics.clone();
+                let where_clause = generics.make_where_clause();
+
+                for where_predicate in copy_bound {
+                    where_clause.predicates.push(where_predicate);
                 }
-            });
+
+                let (impl_generics, ty_generics, where_clause) = generics.split_for_impl();
+
+                token_stream.extend(quote! {
+                    impl #impl_generics ::core::marker::Copy for #ident #ty_generics #where_clause {
+                    }
+                });
+            } else {
+                token_stream.extend(quote! {
+                    impl #impl_generics ::core::marker::Copy for #ident #ty_generics #where_clause {
+                    }
+                });
+            }
         }
 
         Ok(())
